@@ -129,6 +129,8 @@ class VTerm:
         self.bytes_fed = 0
         self.sync_violations = 0
         self.outside_sync_bytes = 0
+        self.swallowed = 0
+        self.chunked_transfers = 0
         self.reply = None  # callback(kind:str, data:bytes)
         self.title = None
         self.alt = False
@@ -305,11 +307,22 @@ class VTerm:
                 self.state = GROUND
                 self._string(kind, bytes(self.buf))
                 return
-            # ESC aborts the string and starts a new escape sequence
-            self.err("string aborted by ESC (state %d, %d bytes)" % (st, len(self.buf)))
-            self.state = ESC
-            self.buf.clear()
-            self._esc(b)
+            # Pessimistic model (what kitty/konsole do and what the library's interrupt
+            # handlers are written for): only ST (BEL for OSC, CAN/SUB) ends a control
+            # string; ESC + anything else is swallowed into it.
+            if b == 0x1B:
+                self.str_esc = True
+            elif b in (0x18, 0x1A):
+                self.err("string cancelled")
+                self.state = GROUND
+            elif b == 0x07 and st == OSC:
+                self.state = GROUND
+                self._string(OSC, bytes(self.buf))
+            else:
+                self.swallowed += 2
+                if len(self.buf) < (1 << 22):
+                    self.buf.append(0x1B)
+                    self.buf.append(b)
             return
         if b == 0x1B:
             self.str_esc = True
@@ -720,6 +733,7 @@ class VTerm:
             if len(payload) % 4:
                 self.err("kitty: non-final chunk not a multiple of 4")
             self.k_pending = {"keys": keys, "payload": bytearray(payload)}
+            self.chunked_transfers += 1
             return
         self._kitty_exec(keys, payload)
 
